@@ -381,7 +381,7 @@ if hasattr(codecs, "IncrementalEncoder"):
                     newinput = _fixencoding(input, str(encoding), final)
                     if newinput is None:  # @charset rule incomplete => Retry next time
                         self.buffer = input
-                        return ""
+                        return b""
                     input = newinput
                 else:
                     # Use encoding from the @charset declaration
@@ -400,7 +400,7 @@ if hasattr(codecs, "IncrementalEncoder"):
                     self.buffer = ""
                 else:
                     self.buffer = input
-                    return ""
+                    return b""
             return self.encoder.encode(input, final)
 
         def reset(self):
